@@ -969,7 +969,12 @@ class C10(L1Prop):
                 if resp_kind(ri) != "noclient":
                     fails.append(f"op {i}: add_snapshot for an unknown client answered {ri}")
                 continue
-            if resp_kind(ri) != "snapack" and not (case.meta.get("faults") and resp_kind(ri) == "error"):
+            if case.meta.get("faults") and resp_kind(ri) == "error":
+                # the storage step failed and the client was told so: nothing may have changed
+                if a.snap != b.snap or a.data != b.data:
+                    fails.append(f"op {i}: add_snapshot failed ({ri}) but the stored snapshot changed {b.snap} -> {a.snap}")
+                continue
+            if resp_kind(ri) != "snapack":
                 fails.append(f"op {i}: add_snapshot answered {ri} (the client is told success either way)")
             ids, stop = b.chain_back()
             window, base = ids[:5], stop
